@@ -21,6 +21,11 @@ func (c *Coins) ExecLocal(tx *types.Transaction, receipt *types.ReceiptData, ind
 
 func (c *Coins) execLocal(tx *types.Transaction, receipt *types.ReceiptData, index int) (*types.LocalDBSet, error) {
 
+	// 与DriverBase.callLocal(ExecDelLocal走的路径)保持一致: 只有执行成功的交易才更新本地数据,
+	// 否则执行失败(只扣手续费)的转账会被计入接收金额, 而区块回滚时又不会减掉
+	if c.CheckReceiptExecOk() && receipt.GetTy() != types.ExecOk {
+		return &types.LocalDBSet{}, nil
+	}
 	action := &cty.CoinsAction{}
 	err := types.Decode(tx.Payload, action)
 	if err != nil {
